@@ -29,6 +29,7 @@ var c07Menu = []string{
 	"a \\\nb\n", "a &&\\\n b\n", "a\\\n\n",
 	"\n", "  \n", "\t\n",
 	"cat <<E\"O\"F\n`\nEOF\n", "cat <<E\\F\n$(\nEF\n", "cat <<E''\n${\nE\n", "cat <<E'F' <<G\n$(\nEF\n$v\nG\n",
+	"cat <<E | # c\nx\nE\nb\n", "cat <<E && # c\nx\nE\nb\n", "case x in a) cat <<E ;; # c\nx\nE\nesac\n", "cat <<E | # c\n\nx\nE\nb <<F\ny\nF\n",
 	"a 'q\nq'\n", "a \"d\n$v\"\n", "a $(b\nc)\n", "a `b\nc`\n", "a $((1 +\n2))\n", "a ${v:-w\nw}\n", "a $(cat <<E\nx\nE\n)\n",
 }
 
@@ -207,7 +208,7 @@ func init() {
 	register(&check{
 		id:    "C07",
 		level: "model_checking",
-		rule: "every stream that is a concatenation of ≤ 3 (quick) / 4 (thorough) commands from a 71-entry menu (single-line, multi-line compound, one and two here-documents incl. <<- and quoted delimiters, here-documents before | && ; and inside compounds and substitutions, trailing comments, line continuations, blank lines, multi-line quotes and substitutions), " +
+		rule: "every stream that is a concatenation of ≤ 3 (quick) / 4 (thorough) commands from a 75-entry menu (single-line, multi-line compound, one and two here-documents incl. <<- and quoted delimiters, here-documents before | && ; and inside compounds and substitutions, trailing comments, line continuations, blank lines, multi-line quotes and substitutions), " +
 			"each also with the last command lacking its final newline, read from a strings.Reader and from a custom RuneScanner; state = reader offset, transition = one ParseCommands call; non-trivial = streams of ≥ 2 commands",
 		assume: []string{"the end of every command is known by construction of the stream; the result of parsing the command's text alone is the reference for the result of the corresponding call",
 			"comment-only lines are not in the menu (go.sh's own tests pin that they are skipped together with the following blank lines)"},
